@@ -263,7 +263,7 @@ Lemma rw_in_idle : forall (st : rw_st) off b (s : rw_stage) (k : nat),
   nth_error [rw_opt ((off =? 0) && fm_list_eqb b (wm_file_header_bytes (rw_n st))) RwDone;
              (if off =? rw_n st then match rw_is_app b with Some s => [s] | None => [] end else []);
              rw_opt (rw_is_link false (rw_hist st) (rw_n st) off b) RwIdle;
-             rw_opt (rw_is_tbl (rw_hist st) (rw_n st) off b) (RwTbl (off - 32) b)] k = Some [s] ->
+             rw_opt (rw_is_tbl false (rw_hist st) (rw_n st) off b) (RwTbl (off - 32) b)] k = Some [s] ->
   In s (rw_next false f pos st (WmWrite off b)).
 Proof.
   intros st off b s k Hs Hk. cbn [rw_next]. rewrite Hs.
